@@ -22,6 +22,26 @@ SCOPE = [
 ]
 
 
+def _take_is_capacity_under_guard(src, f):
+    takes = [m for m in find(f.body, "mcall") if m["m"] == "take"]
+    if not takes or any(show(t["args"], 0).replace(" ", "") not in ("self.capacity", "self.max_value_len()") for t in takes):
+        return False
+    sib = [g for g in src.fns if g.file == f.file and g.self_ty == f.self_ty and g.trait == f.trait and not g.test]
+    iv = [g for g in sib if g.name == "into_values"]
+    ml = [g for g in sib if g.name == "max_value_len"]
+    if len(iv) != 1 or len(ml) != 1 or show(ml[0].body, 0).replace(" ", "") != "{self.capacity}":
+        return False
+    from .core import walk_guards, path_of
+
+    calls = [(x, gd) for x, gd in walk_guards(iv[0].body) if x["k"] == "mcall" and x["m"] == "values" and path_of(x["recv"]) == "self"]
+    if not calls:
+        return False
+    for x, guards in calls:
+        if not any(g[0] == "if" and g[2] is True and "self.values_len()" in show(g[1], 0).replace(" ", "") and "<self.max_value_len()" in show(g[1], 0).replace(" ", "") for g in guards):
+            return False
+    return True
+
+
 def n1(rep, src, rid="N1"):
     import re
 
@@ -43,6 +63,10 @@ def n1(rep, src, rid="N1"):
                 rep.instance(rid, f.qual, {"fn": f.qual, "truncating_combinators": used})
                 for c in used:
                     ok = any(fl == f.file and re.search(r, f.qual) and cc == c for (fl, r, cc) in REVIEWED)
+                    if not ok and c == "take" and f.name == "values" and _take_is_capacity_under_guard(src, f):
+                        # `.take(self.capacity)` in Values::values cannot drop anything when the only enumeration site (into_values of the same impl) runs under
+                        # `values_len() < max_value_len()` and max_value_len() is the capacity (that values_len does not under-report is decided by C18/P6)
+                        ok = True
                     if not ok:
                         site = [m for m in find(f.body, "mcall") if m["m"] == c][0]
                         rep.violation(rid, "%s@%s" % (f.qual, c), "`.%s(..)` in the value enumeration %s: values may be dropped (%s)" % (c, f.qual, show(site, 100)), "src/%s:%d" % (f.file, site["l"]))
